@@ -1708,6 +1708,13 @@ def check_c19(opts, res):
             if not ens:
                 continue
             _check_src(an, add, which, e, t, ens, src_text, True, cin)
+            # a synthesized block (wrapper of an @import rewrite) has no closing bracket in the source: its closer is mapped to where its opener is
+            eo = by_dst.get(t.pos)
+            if e.role == "synth" and e.close_src is None and eo:
+                so, sc = (eo[0][2], eo[0][3]), (ens[-1][2], ens[-1][3])
+                if so != sc:
+                    add("map-closer-not-at-opener", "%s output: the closer of the synthesized block %s at col %d is mapped to source %d:%d, its opener to %d:%d"
+                        % (which, t.short(), ens[-1][1], sc[0], sc[1], so[0], so[1]), output=which, entry=ens[-1], at=list(so))
     return ps
 
 
